@@ -907,8 +907,23 @@ fn run_program(fl: Flavour, cap: usize, steps: usize, rng: &mut Rng, tiny: bool)
             w.spawn_send(i, 1 + rng.below(2) as u8, n);
             break;
           }
+          // len() against capacity() while the values sit where the channel put them and nobody has been polled
+          for i in 0..w.rxs.len() {
+            let (len, capr) = match (&w.rxs[i].a, &w.rxs[i].s) {
+              (Some(a), _) => (a.len(), a.capacity()),
+              (None, Some(s)) => (s.len(), s.capacity()),
+              _ => (None, None),
+            };
+            if let Some(l) = len {
+              let mut ev = Ev::new(0, w.rxs[i].id, Side::Rx, Form::Probe, false);
+              ev.aux = l as u64;
+              ev.aux2 = capr.map(|c| c as u64).unwrap_or(u64::MAX);
+              let idx = w.log.begin(ev);
+              w.log.end(idx, |e| e.out = Out::Ok);
+              break;
+            }
+          }
           if rng.chance(1, 2) {
-            // stop here: the values sit where the channel put them, nobody has been polled
             w.quiescence_check("template: waiters + batch");
             continue;
           }
